@@ -1,2 +1,2 @@
 # Properties whose check has been validated on the unchanged tree and is registered in MANIFEST.json.
-READY = ["C19", "C20"]
+READY = ["C13", "C17", "C18", "C19", "C20"]
